@@ -46,6 +46,7 @@ type Job struct {
 	// document bounds
 	W, S      int
 	Keys      []string
+	InnerKeys []string // key universe of nested objects (nil: same as Keys)
 	NumBound  float64
 	Unwind    int
 	MapOrders bool
